@@ -115,6 +115,7 @@ def parseOp (f : List String) : Option Op :=
   | "fork" :: r :: _ => some (.fork (ridOf r) (kvN f "h"))
   | ["chanclose", c] => some (.chanClose (idx! c))
   | ["chanopen", c] => some (.chanOpen (idx! c))
+  | "timeoutclose" :: c :: _ => some (.timeoutOnClose (idx! c) (kvN f "seq"))
   | ["epoch"] => some .epoch
   | ["block"] => some .block
   | _ => none
@@ -249,6 +250,7 @@ def dstep (d : DState) (f : List String) : DState × String :=
       -- a failed MsgTransfer is one class (ibc-go's own checks are not modelled one by one)
       let res := match op, r.2 with
         | .send .., .err _ => "err"
+        | .timeoutOnClose c q, .ok => if d.st.commits.contains (c, q) then "ok" else "replay"
         | _, o => outName o
       ({ d with st := r.1 }, render r.1 d.nActors res)
 
